@@ -38,7 +38,7 @@ TRUSTED = [
     "same cases is re-evaluated by the kernel (vm_compute)",
 ]
 
-ERR_CODE = {"IndexError": 1, "ValueError": 2, "NotImplementedError": 3}
+ERR_CODE = {"IndexError": 1, "ValueError": 2, "NotImplementedError": 3, "OSError": 4}
 
 
 # --------------------------------------------------------------------------
@@ -218,12 +218,26 @@ class Recording:
             mtscomp.compress(self.bin_file, out=cb, outmeta=d / (stem + ".ch"), sample_rate=fs, n_channels=nc,
                              dtype=np.int16, chunk_duration=chunk_samples / fs, n_threads=1,
                              check_after_compress=False)
-            self.bin_file.unlink()
-            self.file = cb
-            files = [cb, d / (stem + ".ch"), self.meta_file]
+            self.ch_file = d / (stem + ".ch")
+            if o.get("keep_bin"):       # .bin and .cbin side by side: the .meta entry point picks the .bin
+                self.cbin = False
+                files = [self.bin_file, self.meta_file]
+            else:
+                self.bin_file.unlink()
+                self.file = cb
+                files = [cb, self.ch_file, self.meta_file]
+            if o.get("ch_file_arg"):    # compression header under another name, given to the constructor
+                other = d / "header_elsewhere.json"
+                self.ch_file.rename(other)
+                self.ch_file = other
         elif o.get("extra_bytes"):
             with open(self.bin_file, "ab") as f:
                 f.write(bytes((7 * k + 1) % 251 for k in range(o["extra_bytes"])))
+        if o.get("meta_file_arg") and self.meta_file is not None:   # meta under another name, given explicitly
+            (d / "elsewhere").mkdir()
+            other = d / "elsewhere" / "session.meta"
+            self.meta_file.rename(other)
+            self.meta_file = other
         acc = o.get("access", "direct")
         if acc == "symlink_files":
             store = d / "objects"
@@ -255,15 +269,24 @@ class Recording:
         if o.get("access") == "relative":
             os.chdir(self.dir.parent)
             f = Path(self.dir.name) / self.file.name
+        if o.get("access") == "via_meta":      # the .meta file as the entry point
+            f = self.meta_file
         f = str(f) if self.as_str else f
         kw = {"sort": sort}
         if o.get("ignore_warnings") is not None:
             kw["ignore_warnings"] = o["ignore_warnings"]
-        if o.get("open_later"):
+        if o.get("open_later") or o.get("never_open"):
             kw["open"] = False
+        if o.get("meta_file_arg"):
+            kw["meta_file"] = str(self.meta_file) if self.as_str else self.meta_file
+        if o.get("ch_file_arg"):
+            kw["ch_file"] = self.ch_file
         if self.flat is not None:
-            sr = spikeglx.Reader(f, nc=self.nc, ns=self.ns, fs=30000, nsync=self.flat["nsync"],
-                                 dtype=self.flat["dtype"], **kw)
+            if not self.flat.get("guess"):      # otherwise nc / ns / fs / nsync are guessed from the size
+                kw.update(nc=self.nc, ns=self.ns, fs=30000, nsync=self.flat["nsync"])
+            if self.flat.get("s2v") is not None:
+                kw["s2v"] = self.flat["s2v"]
+            sr = spikeglx.Reader(f, dtype=self.flat["dtype"], **kw)
         else:
             sr = spikeglx.Reader(f, **kw)
         if o.get("open_later"):
@@ -522,7 +545,11 @@ def snapshot(sr, rec):
         if rec.flat is None and n > nc:
             raise ImplProblem("reader.geometry has %d sites for %d channels" % (n, nc))
         snap["geometry"] = {k: vec("geometry[%r]" % k, g[k], n, "fiu").copy() for k in g}
-    if rec.cbin:
+    if rec.opts.get("never_open"):
+        if get("is_open", lambda: sr.is_open):
+            raise ImplProblem("a reader constructed with open=False is open")
+        snap["bounds"] = [0, rec.ns]
+    elif rec.cbin:
         b = get("_raw.chunk_bounds", lambda: [int(x) for x in sr._raw.chunk_bounds])
         if len(b) < 2 or b[0] != 0 or b[-1] != rec.ns or any(x > y for x, y in zip(b, b[1:])):
             raise ImplProblem("compressed reader chunk bounds %s are not 0..ns non-decreasing" % (b[:8],))
@@ -544,6 +571,9 @@ def run_impl(sr, case, keep=None):
     p = [to_py(s) for s in sels]
     if api == "read":
         obs = observe(lambda: sr.read(p[0], p[1], sync=False), keep)
+    elif api == "read_samples" and case.get("defaults"):
+        # read_samples() / read(): first_sample=0, last_sample=10000, channels=None / nsel=slice(0, 10000)
+        obs = observe((lambda: sr.read()) if case["defaults"] == "read" else (lambda: sr.read_samples()), keep)
     elif api == "read_samples":
         s = sels[0]
         obs = observe(lambda: sr.read_samples(s[1], s[2], p[1] if len(p) > 1 else None), keep)
@@ -561,7 +591,8 @@ def run_impl(sr, case, keep=None):
 
 def enc_case(rec, order, case):
     api, sels = case["api"], case["sels"]
-    head = [0 if api in ("read", "read_samples") else (1 if api == "getitem1" else 2),
+    head = [(10 if rec.opts.get("never_open") else 0) +
+            (0 if api in ("read", "read_samples") else (1 if api == "getitem1" else 2)),
             1 if rec.cbin else 0, len(rec.bounds)] + list(rec.bounds) + [rec.ns, rec.nc] + list(order)
     if api == "read":
         return head + enc_sel(sels[0]) + enc_sel(sels[1])
@@ -654,6 +685,8 @@ def in_property_domain(rec, case):
     api, sels = case["api"], case["sels"]
     if api == "getitemk" or not sels:
         return False
+    if rec.opts.get("never_open"):
+        return False                      # the open guard (C01_open_guard): model only
     if len(sels) == 2 and sels[0][0] == "list" and sels[1][0] == "list":
         return False                      # two index lists: outer gather, see C01_read_outer
     if rec.cbin and sels[0][0] == "list":
@@ -899,6 +932,29 @@ def build_recordings(ctx, tdir):
                          label="opened:%s:%s" % (kind, ",".join("%s=%s" % kv for kv in sorted(opts.items()))),
                          big=False, exp_s2v=exp, ncases=12, opts=opts))
         k += 1
+    # round-4 audit: the .meta file as the entry point (.bin, .cbin, both side by side: the .bin wins),
+    # meta / compression header under other names given through meta_file= / ch_file=, a reader that is
+    # never opened (open guard), a meta without any gain information (the constructor refuses it)
+    extra = [dict(access="via_meta", cbin=False), dict(access="via_meta", cbin=True),
+             dict(access="via_meta", cbin=True, keep_bin=True), dict(meta_file_arg=True, cbin=False),
+             dict(meta_file_arg=True, ch_file_arg=True, cbin=True), dict(ch_file_arg=True, cbin=True),
+             dict(never_open=True, cbin=False), dict(never_open=True, cbin=True),
+             dict(access="via_meta", meta_ns_delta=-3, ignore_warnings=True, cbin=False)]
+    for j, v in enumerate(extra):
+        kind = ["NP2.4", "3B2", "nidq", "NPultra", "lf", "NP2.1"][j % 6]
+        text, fs, nc, exp = synth_meta(rng, kind, rng.choice([4, 6, 9]), nsync=1)
+        ns = rng.choice([11, 19, 30])
+        opts = {kk: v[kk] for kk in ("access", "keep_bin", "meta_file_arg", "ch_file_arg", "never_open",
+                                     "ignore_warnings") if kk in v}
+        if "meta_ns_delta" in v:
+            opts["meta_ns"] = ns + v["meta_ns_delta"]
+        recs.append(dict(name="e_%d" % j, text=text, fs=fs, ns=ns, nc=nc, cbin=v["cbin"], chunk=4,
+                         label="entry:%s:%s" % (kind, ",".join("%s=%s" % kv for kv in sorted(opts.items()))),
+                         big=False, exp_s2v=exp, ncases=10, opts=opts))
+    text, fs, nc, exp = synth_meta(rng, "nidq", 0, layout=(1, 1, 1, 1))
+    text = "\n".join(l for l in text.splitlines() if not l.startswith(("niMNGain", "niMAGain"))) + "\n"
+    recs.append(dict(name="e_nogain", text=text, fs=fs, ns=5, nc=nc, cbin=False, chunk=2, label="entry:nidq:no gain keys",
+                     big=False, ncases=2, opts={"expect_open_error": True}))
     # a full-size (385-channel) recording behind file links: there a reader that loses the .meta does not
     # fail, it silently becomes a flat 385-channel reader
     m385 = [m for m in metas if meta_facts(Path(m).read_text())["nc"] == 385]
@@ -911,13 +967,19 @@ def build_recordings(ctx, tdir):
                              opts={"access": "symlink_files"}))
     # flat binaries without a .meta file: Reader(file, nc=, ns=, fs=) — no geometry, no permutation
     S2V_AP = 2.34375e-06
-    for k, (dtype, nsync, nc) in enumerate([("int16", 1, 7), ("int16", 0, 5), ("float32", 0, 4), ("int16", 2, 9)]):
-        exp = ([S2V_AP if dtype == "int16" else 1.0] * nc)
+    flats = [("int16", 1, 7, {}), ("int16", 0, 5, {}), ("float32", 0, 4, {}), ("int16", 2, 9, {}),
+             ("int16", 1, 6, {"s2v": 1.5e-6}), ("float32", 0, 3, {"s2v": 0.25}),
+             # nc / ns / fs / nsync guessed from the file size: 384 columns (no sync) or 385 (one sync column)
+             ("int16", 0, 384, {"guess": True}), ("int16", 1, 385, {"guess": True})]
+    for k, (dtype, nsync, nc, more) in enumerate(flats):
+        f0 = more.get("s2v", S2V_AP if dtype == "int16" else 1.0)
+        exp = [f0] * nc
         for j in range(nsync):
             exp[nc - 1 - j] = 1.0
-        recs.append(dict(name="flat_%d" % k, text=None, fs=30000.0, ns=rng.choice([5, 13, 32]), nc=nc, cbin=False,
-                         chunk=1, label="flat:%s:nsync%d" % (dtype, nsync), big=False, exp_s2v=exp,
-                         flat={"nsync": nsync, "dtype": dtype}))
+        recs.append(dict(name="flat_%d" % k, text=None, fs=30000.0, ns=rng.choice([5, 13, 32] if nc < 300 else [3, 5, 7]),
+                         nc=nc, cbin=False, chunk=1,
+                         label="flat:%s:nsync%d%s" % (dtype, nsync, "".join(":%s" % kk for kk in more)),
+                         big=nc > 300, exp_s2v=exp, flat=dict({"nsync": nsync, "dtype": dtype}, **more)))
     # the sweep recordings: tiny, every slice triple
     for cbin in (False, True):
         text, fs, nc, exp = synth_meta(rng, "NP2.4", 4)
@@ -987,8 +1049,16 @@ def model_gains(ctx, recs, stats):
         if rec.flat is None:
             queries.append([4] + [ord(ch) for ch in rec.meta_file.read_text()])
             owners.append(rec)
+    for rec in recs:
+        rec.model_guess = None
+        if rec.flat is not None and rec.flat.get("guess"):
+            queries.append([5, int(Path(rec.file).stat().st_size)])
+            owners.append(rec)
     outs = run_model(ctx, queries)
     for rec, o in zip(owners, outs):
+        if rec.flat is not None:
+            rec.model_guess = tuple(o[1:4]) if o and o[0] == 1 and len(o) == 4 else None
+            continue
         if o and o[0] == 1 and len(o) >= 5 and len(o) == 5 + 3 * o[4]:
             rec.model_gain = {"range": Fraction(o[1], 10 ** o[2]), "maxint": o[3],
                               "conv": [tuple(o[5 + 3 * i: 8 + 3 * i]) for i in range(o[4])]}
@@ -1099,6 +1169,8 @@ def call_str(case):
     ss = [sel_str(s) for s in sels]
     if api == "read":
         return "sr.read(%s, %s, sync=False)" % (ss[0], ss[1])
+    if api == "read_samples" and case.get("defaults"):
+        return "sr.%s()[0]" % case["defaults"]
     if api == "read_samples":
         return "sr.read_samples(%s, %s%s)[0]" % (sels[0][1], sels[0][2], (", " + ss[1]) if len(ss) > 1 else "")
     if api == "getitem1":
@@ -1183,8 +1255,14 @@ def check_recording(ctx, rec, stats, work):
         for sort in (True, False):
             readers[sort] = rec.open(sort)
     except BaseException as e:      # noqa
-        ctx.fail("Reader could not open the mock recording: %r" % (e,), describe(rec, None, None),
-                 dict(ftag, kind="open"))
+        if rec.opts.get("expect_open_error"):
+            stats["open_refused_as_modelled"] = stats.get("open_refused_as_modelled", 0) + 1
+            if rec.model_gain is not None:
+                ctx.disagree("the reader refuses a meta for which the meta-file model gives a gain vector",
+                             describe(rec, None, None), dict(ftag, kind="open"))
+        else:
+            ctx.fail("Reader could not open the mock recording: %r" % (e,), describe(rec, None, None),
+                     dict(ftag, kind="open"))
         for r in readers.values():
             try:
                 r.close()
@@ -1192,6 +1270,10 @@ def check_recording(ctx, rec, stats, work):
                 pass
         return
     try:
+        if rec.opts.get("expect_open_error"):
+            ctx.disagree("the reader opened a recording whose meta has no gain information (the meta-file "
+                         "model returns no volts-per-bit vector)", describe(rec, None, None), dict(ftag, kind="open"))
+            return
         maxint = meta_facts(rec.text)["maxint"] if rec.flat is None else None
         snaps = {}
         for sort in (True, False):
@@ -1212,6 +1294,12 @@ def check_recording(ctx, rec, stats, work):
                 order = exp_order
                 for b in s2v_clauses(rec, snap, None):
                     ctx.fail(b, desc0, {"kind": "flat"})
+                if rec.flat.get("guess"):
+                    got = (snap["nc"], snap["ns"], snap["nsync"])
+                    stats["guess_compared"] = stats.get("guess_compared", 0) + 1
+                    if rec.model_guess != got:
+                        ctx.disagree("shape guessed from the file size: implementation (nc, ns, nsync) = %s, model %s"
+                                     % (got, rec.model_guess), desc0, {"kind": "guess"})
             else:
                 exp_order = guarded(ctx, "geometry clauses", desc0,
                                     lambda: geometry_clauses(ctx, rec, snap, snaps[False], sort, desc0, maxint), ftag)
@@ -1258,9 +1346,14 @@ def check_recording(ctx, rec, stats, work):
                 if rec.flat is not None:
                     # read_samples / read(sync=True) need the meta (read_sync; see notes F-C01-e): not used here
                     cases = [c for c in cases if c["api"] != "read_samples"]
+                elif rec.ns * rec.nc <= 3000:
+                    # the calls with every argument left at its default: read_samples() and read()
+                    for dflt in ("read_samples", "read"):
+                        cases.append({"api": "read_samples", "sels": [("slice", 0, 10000, None)], "defaults": dflt})
             state = {"prev": None}
             for case in cases:
-                do_sync = rec.flat is None and case["api"] in ("read", "read_samples") and rng.random() < 0.35
+                do_sync = (rec.flat is None and not rec.opts.get("never_open") and
+                           case["api"] in ("read", "read_samples") and rng.random() < 0.35)
                 guarded(ctx, "examining " + call_str(case), describe(rec, sort, case),
                         lambda: one_case(ctx, rec, sr, sort, case, CS, s2v, order, do_sync, stats, work, state), ftag)
             # the reader and the file are unchanged by the reads
